@@ -356,16 +356,24 @@ package parquet
 //@ loop (*OptionalField).valsFromDefs#1
 //@   invariant[C04] 0 <= rangeindex + 1 && rangeindex + 1 <= #defs && out == cntEq(HA(defs), off(defs), rangeindex + 1, max)
 
+// C04: booleans are unpacked page by page: after k pages exactly the bytes of those k pages
+// (ceil(count/8) each, whatever the counts) have been taken from the value bytes.
+//@ recfn boolBytes(A array<int>, off int, n int) int := ite(n <= 0, 0, boolBytes(A, off, n - 1) + (A[off + n - 1] + 7) / 8)
 //@ func GetBools
+//@   verify[C04]
 //@   requires dyn(r) == typeid("*bytes.Buffer") && payload(r) != 0
+//@   free-requires forall k in 0..#pageSizes: pageSizes[k] >= 0
 //@   modifies obj(r), rd
 //@   ensures[C10] err == nil ==> (rfault ==> old(rfault))
 //@ loop GetBools#1
 //@   invariant freshOrNil(out) && freshOrNil(data) && (rfault ==> old(rfault))
+//@   invariant[C04] 0 <= rangeindex + 1 && rangeindex + 1 <= #pageSizes && #data + boolBytes(HA(pageSizes), off(pageSizes), rangeindex + 1) == lastReadAll
 //@ loop GetBools#2
 //@   invariant freshOrNil(out) && freshOrNil(data) && (rfault ==> old(rfault))
+//@   invariant[C04] 0 <= rangeindex$1 + 1 && rangeindex$1 + 1 < #pageSizes && #data + boolBytes(HA(pageSizes), off(pageSizes), rangeindex$1 + 2) == lastReadAll
 //@ loop GetBools#3
 //@   invariant freshOrNil(out) && freshOrNil(data) && (rfault ==> old(rfault))
+//@   invariant[C04] 0 <= rangeindex$1 + 1 && rangeindex$1 + 1 < #pageSizes && #data + boolBytes(HA(pageSizes), off(pageSizes), rangeindex$1 + 2) == lastReadAll
 //@ func min
 //@   modifies nothing
 //@ func unpackBools
